@@ -210,6 +210,9 @@ func (a *Alpha) Enabled(s *State) []Event {
 			if eff == "cordon" {
 				key = "node.kubernetes.io/unschedulable"
 			}
+			if eff == "notready" {
+				key = "node.kubernetes.io/not-ready"
+			}
 			has, hasHarness := false, false
 			for _, t := range n.Spec.Taints {
 				if t.Key == key {
